@@ -642,7 +642,84 @@ def build_only_ref(spec):
     return files, targets
 
 
+# ---- package-level import cycles ---------------------------------------------------------------------------------------------------
+def cycle_specs():
+    """two legal APIs (acyclic between FILES) whose proto PACKAGES refer to each other in both directions: the emitted python packages
+    import each other while half initialised (findings/C01.json import-error:package-level-import-cycle)"""
+    pkg = "acme.lib.v1"
+    return [{"pkg": pkg, "cycle": shape, "dep_pkg": False, "sub": "admin", "service_in_sub": shape == "sub-uses-service-sub", "service_yaml": False, "ads": False,
+             "files": [], "opts": [f"transport={tr}", "autogen-snippets=false"], "transport": tr.split("+")}
+            for shape, tr in (("root-sub-root", "grpc"), ("sub-uses-service-sub", "grpc+rest"))]
+
+
+def build_cycle(spec):
+    pkg = spec["pkg"]
+    if spec["cycle"] == "root-sub-root":
+        # base.proto (root) <- admin/admin_types.proto (sub) <- library.proto (root)
+        b = apigen.File("acme/lib/v1/base.proto", pkg); base = b.msg("Base"); base.field("name")
+        s = apigen.File("acme/lib/v1/admin/admin_types.proto", pkg + ".admin"); s.dep(b.name)
+        role = s.msg("Role"); role.field("name"); role.field("base", "message", type_name=base)
+        a = apigen.File("acme/lib/v1/library.proto", pkg); a.dep(s.name)
+        book = a.msg("Book"); book.field("name"); book.field("role", "message", type_name=role)
+        rq = a.msg("GetBookRequest"); rq.field("name", "string", 1)
+        a.service("Library").method("GetBook", rq, book, http=("get", "/v1/{name=books/*}"))
+        files = [b, s, a]
+    else:
+        # common/parts.proto <- admin/reqs.proto <- common/service.proto: the service's request lives in a sub-package that sorts first
+        c = apigen.File("acme/lib/v1/common/parts.proto", pkg + ".common"); part = c.msg("Part"); part.field("name")
+        d = apigen.File("acme/lib/v1/admin/reqs.proto", pkg + ".admin"); d.dep(c.name)
+        rq = d.msg("Req"); rq.field("name", "string", 1); rq.field("part", "message", type_name=part)
+        sv = apigen.File("acme/lib/v1/common/service.proto", pkg + ".common"); sv.dep(c.name, d.name)
+        sv.service("Parts").method("GetPart", rq, part, http=("get", "/v1/{name=parts/*}"))
+        files = [c, d, sv]
+    return files, files
+
+
+def package_graph_cyclic(files, targets):
+    """do the proto packages of the target files refer to each other's types in a cycle?  (edges: field types incl. nested messages,
+    method input/output, LRO response/metadata; computed from the descriptors)"""
+    from google.longrunning import operations_pb2 as _ops
+    tnames = {t.pb.name if hasattr(t, "pb") else t.name for t in targets}
+    pbs = [f.pb if hasattr(f, "pb") else f for f in files]
+    tpbs = [f for f in pbs if f.name in tnames]
+    owner = {}
+
+    def reg(prefix, msgs, enums, pkgname):
+        for e in enums: owner[prefix + e.name] = pkgname
+        for m in msgs:
+            owner[prefix + m.name] = pkgname
+            reg(prefix + m.name + ".", m.nested_type, m.enum_type, pkgname)
+    for f in tpbs:
+        reg(f.package + ".", f.message_type, f.enum_type, f.package)
+    edges = set()
+
+    def refs(m, out):
+        for fd in m.field:
+            if fd.type_name: out.append(fd.type_name.lstrip("."))
+        for n in m.nested_type: refs(n, out)
+    for f in tpbs:
+        out = []
+        for m in f.message_type: refs(m, out)
+        for sv in f.service:
+            for me in sv.method:
+                out += [me.input_type.lstrip("."), me.output_type.lstrip(".")]
+                if me.options.HasExtension(_ops.operation_info):
+                    oi = me.options.Extensions[_ops.operation_info]
+                    out += [(x if "." in x else f.package + "." + x) for x in (oi.response_type, oi.metadata_type) if x]
+        for t in out:
+            q = owner.get(t)
+            if q and q != f.package: edges.add((f.package, q))
+    nodes = {a for a, _ in edges} | {b for _, b in edges}
+    reach = {n: {b for a, b in edges if a == n} for n in nodes}
+    for _ in nodes:
+        for n in nodes:
+            reach[n] |= {z for y in list(reach[n]) for z in reach.get(y, ())}
+    return any(n in reach[n] for n in nodes)
+
+
 def build(spec):
+    if "cycle" in spec:
+        return build_cycle(spec)
     if "only_ref" in spec:
         return build_only_ref(spec)
     files = []
@@ -760,6 +837,7 @@ def run_case(ctx, spec, label):
             ydir, yp = service_yaml_path(spec)
             opts.append("service-yaml=" + yp)
         req = apigen.request(files, ",".join(opts), targets=targets)
+        ctx.count("package_graph", "cyclic" if package_graph_cyclic(files, targets) else "acyclic")
     except Exception as e:          # our own descriptor builder rejected the spec: not a case
         ctx.count("builder", "rejected:" + type(e).__name__)
         return
@@ -853,6 +931,9 @@ def run_case(ctx, spec, label):
             msh = _re2.search(r"module '[\w.]+\.types\.(\w+)' has no attribute", etxt)
             if "AttributeError" in etxt and msh and msh.group(1) in SHADOWING_FILE_NAMES and msh.group(1) in {f["name"] for f in spec["files"]}:
                 key = "import-error:types-module-shadows-template-import"
+            # proto packages that use each other's types in both directions: the emitted packages import each other half initialised
+            if "partially initialized module" in etxt and package_graph_cyclic(files, targets):
+                key = "import-error:package-level-import-cycle"
             ctx.fail(key, f"package {pkg} does not import: {str(imp.get('errors') or imp)[:400]}", payload)
             return
         ex = api.all_library_settings[api.naming.proto_package].python_settings.experimental_features
@@ -924,6 +1005,11 @@ def run(ctx):
     for k, spec in enumerate(namespaceless_specs()):
         run_case(ctx, spec, f"nons{k}")
         ctx.case({"nons": k, "pkg": spec["pkg"], "opts": spec["opts"]}, distinct_key=["nons", k])
+    # (the random streams keep the package graph acyclic: a sub-package file is declared first and uses only its own types; the two
+    #  cyclic shapes are the fixed cases below, matched by their key)
+    for k, spec in enumerate(cycle_specs()):
+        run_case(ctx, spec, f"cycle{k}")
+        ctx.case({"cycle": spec["cycle"]}, distinct_key=["cycle", spec["cycle"]])
     # one file references another in exactly one way (map value, oneof member, nested field, LRO type, method input/output, ...)
     ro = ctx.rng("only-ref")
     matrix = only_ref_matrix()
